@@ -368,7 +368,13 @@ static forest* make_forest(domain* d, const Kind& k, const Pol& p, const policie
 {
     policies pol = override_pol ? *override_pol : make_policies(k, p);
     try {
-        return forest::create(d, k.rel, rt_of(k.range), el_of(k.lab), pol);
+        forest* F = forest::create(d, k.rel, rt_of(k.range), el_of(k.lab), pol);
+        // bind the requested policy to the one in force
+        const policies& q = F->getPolicies();
+        if (q.reduction!=pol.reduction || q.storage_flags!=pol.storage_flags || q.deletion!=pol.deletion || q.nodemm!=pol.nodemm || q.useReferenceCounts!=pol.useReferenceCounts) {
+            printf("\nCRASH\t%ld\t%d\tharness: forest policy %s/%s requested but not in force\n", ctx.caseno, 98, k.name().c_str(), p.name().c_str()); fflush(stdout); _exit(98);
+        }
+        return F;
     } catch (MEDDLY::error e) {
         declined("forest %s/%s: %s", k.name().c_str(), p.name().c_str(), e.getName());
         return nullptr;
